@@ -162,7 +162,7 @@ def _opts_kwargs(fmt: str, o: dict) -> dict:
             'sort_keys': o['sort_keys'] == 'T'}
 
 
-SINKS = ['path', 'strpath', 'stringio', 'textfile', 'returned']
+SINKS = ['path', 'strpath', 'stringio', 'textfile', 'returned', 'textfile_latin1']
 
 
 def ev_round(ident: int, c: Case, fmt: str, sink: str, o: dict, scratch: str) -> dict:
@@ -203,7 +203,8 @@ def ev_round(ident: int, c: Case, fmt: str, sink: str, o: dict, scratch: str) ->
             except Exception as ex:  # noqa
                 e['got'] = {'k': 'exc', 'c': type(ex).__name__}
         else:
-            caller_stream = _io.StringIO() if sink == 'stringio' else builtins.open(p, 'w+', encoding='utf-8')
+            caller_stream = _io.StringIO() if sink == 'stringio' else \
+                builtins.open(p, 'w+', encoding='utf-8' if sink == 'textfile' else 'latin-1')
             write(x, caller_stream, ty=c.ty, **kw)
             e['wrote'] = 'ok'
             if not caller_stream.closed:
